@@ -82,6 +82,11 @@ async def client_actor(ctx, w, idx, user, st):
         groups = []  # (JobGroup, depth)
         n_updates = s.rint(1, 3)
         for ui in range(n_updates):
+            if ui > 0 and s.draw(3) == 0:
+                # a late update: the jobs of the earlier updates have (mostly) finished -- succeeded, failed or been
+                # cancelled because a parent failed -- when this update names them as parents and commits
+                await asyncio.sleep(s.rint(30, 120))
+                ctx.probe('late_update_after_earlier_jobs_finished')
             n_new_groups = s.draw(3) if ui < 2 else 0
             for _ in range(n_new_groups):
                 cands = [(None, 0)] + [(g, d) for g, d in groups if d < 2]
@@ -290,6 +295,10 @@ def run(ctx):
     w.compact_billing = cfg.draw(2) == 1
     w.billing_period = (60.0, 20.0, 7.0)[cfg.draw(3)]
     w.max_job_ticks = (3000, 20000, 200)[cfg.draw(3)]
+    # tuning knobs of the driver's periodic maintenance are varied per run too (a compaction every minute hardly ever
+    # overlaps a billing heartbeat in a 2-3 minute history)
+    w.periods['compact'] = (60, 15, 4)[cfg.draw(3)]
+    w.periods['cleanup'] = (60, 15, 4)[cfg.draw(3)]
     st = {'batches': {}, 'clients_done': 0, 'heal': False, 'plan': None, 'crashes': 0, 'driver_down': False,
           'fe_crashes': 0, 'fe_down': False}
     orc = {}
